@@ -102,6 +102,11 @@ class SkelTr:
                    (isinstance(s, ast.Expr) and isinstance(s.value, ast.Constant) and isinstance(s.value.value, str))
                    for s in fn.body)
 
+    @staticmethod
+    def q(n: str) -> str:
+        """The Lean string expression for a call name (a name built from a cursor value is a concatenation)."""
+        return f'("{n}")' if "++" in n else f'"{n}"'
+
     def self_attr(self, e: ast.expr) -> str | None:
         if isinstance(e, ast.Attribute) and isinstance(e.value, ast.Name) and e.value.id == "self":
             return e.attr
@@ -128,6 +133,9 @@ class SkelTr:
         a = self.self_attr(f)
         if a is not None and a in self.spec.get("callables", ()):
             return lname(a)
+        if isinstance(f, ast.Attribute) and isinstance(f.value, ast.Name) and f.value.id in getattr(self, "elem_locals", {}):
+            coll, v = self.elem_locals[f.value.id]
+            return f"{coll}[\" ++ toString {v} ++ \"].{f.attr}"
         return None
 
     # ---- expressions (Boolean) -------------------------------------------------------------------------
@@ -173,7 +181,7 @@ class SkelTr:
                 return f"(← {m} cfg)"
         n = self.collab_call(e)
         if n is not None:
-            return f"(← ask \"{n}\")"
+            return f"(← ask {self.q(n)})"
         a = self.self_attr(e)
         if a is not None:
             if a in self.spec.get("bool_fields", {}):
@@ -182,6 +190,21 @@ class SkelTr:
                 if a in self.spec.get("props", ()):
                     return f"(← ask \"{a}\")"
         raise Untranslatable(f"unsupported condition `{ast.unparse(e)}`")
+
+    # ---- natural-number expressions over `self` (a cursor, a length) ------------------------------------
+    def nexpr(self, e: ast.expr) -> str:
+        if isinstance(e, ast.Constant) and isinstance(e.value, int) and not isinstance(e.value, bool) and e.value >= 0:
+            return str(e.value)
+        a = self.self_attr(e)
+        if a is not None and a in self.spec.get("nat_state", {}):
+            return f"w.{self.spec['nat_state'][a]}"
+        if isinstance(e, ast.Call) and isinstance(e.func, ast.Name) and e.func.id == "len" and len(e.args) == 1 \
+                and self.self_attr(e.args[0]) in self.spec.get("len_fields", {}):
+            return f"cfg.{self.spec['len_fields'][self.self_attr(e.args[0])]}"
+        if isinstance(e, ast.BinOp) and isinstance(e.op, (ast.Add, ast.Mod, ast.Mult)):
+            op = {ast.Add: "+", ast.Mod: "%", ast.Mult: "*"}[type(e.op)]
+            return f"({self.nexpr(e.left)} {op} {self.nexpr(e.right)})"
+        raise Untranslatable(f"unsupported number `{ast.unparse(e)}`")
 
     # ---- statements, continuation-passing --------------------------------------------------------------
     def is_log(self, s: ast.stmt) -> bool:
@@ -246,6 +269,22 @@ class SkelTr:
     def simple(self, s: ast.stmt, ind: str, locs: set[str]) -> list[str]:
         if isinstance(s, ast.Assign) and len(s.targets) == 1:
             t = s.targets[0]
+            a0 = self.self_attr(t)
+            if a0 is not None and a0 in self.spec.get("nat_state", {}):
+                f = self.spec["nat_state"][a0]
+                return [f"{ind}modify fun w => {{ w with {f} := {self.nexpr(s.value)} }}"]
+            if isinstance(t, ast.Tuple) and isinstance(s.value, ast.Subscript) and \
+                    self.self_attr(s.value.value) in self.spec.get("indexed", {}) and \
+                    self.self_attr(s.value.slice) in self.spec.get("nat_state", {}):
+                # `name, item = self._items[self._cursor]`: the names stand for the element at the cursor *now*
+                coll = self.spec["indexed"][self.self_attr(s.value.value)]
+                cur = self.spec["nat_state"][self.self_attr(s.value.slice)]
+                self.tmp_elem += 1
+                v = f"at{self.tmp_elem}"
+                for el in t.elts:
+                    if isinstance(el, ast.Name):
+                        self.elem_locals[el.id] = (coll, v)
+                return [f"{ind}let {v} := (← get).{cur}"]
             if isinstance(t, ast.Name) and isinstance(s.value, ast.Constant) and isinstance(s.value.value, bool):
                 locs.add(t.id)
                 return [f"{ind}let {t.id} := {'true' if s.value.value else 'false'}"]
@@ -266,14 +305,14 @@ class SkelTr:
                 n = self.collab_call(s.value)
                 if n is not None and t.id in self.cond_names:
                     locs.add(t.id)
-                    return [f"{ind}let {t.id} ← ask \"{n}\""]
+                    return [f"{ind}let {t.id} ← ask {self.q(n)}"]
                 if n is not None:
-                    return [f"{ind}call \"{n}\""]      # the value is opaque (a path, an object)
+                    return [f"{ind}call {self.q(n)}"]      # the value is opaque (a path, an object)
         if isinstance(s, ast.Expr) and isinstance(s.value, ast.Call):
             c = s.value
             n = self.collab_call(c)
             if n is not None:
-                return [f"{ind}call \"{n}\""]
+                return [f"{ind}call {self.q(n)}"]
             if isinstance(c.func, ast.Attribute):
                 if self.self_attr(c.func) is not None and c.func.attr in self.own and not c.args:
                     m = c.func.attr
@@ -402,6 +441,7 @@ class SkelTr:
         self.cond_names = {n.id for st in ast.walk(fn) if isinstance(st, (ast.If, ast.While))
                            for n in ast.walk(st.test) if isinstance(n, ast.Name)}
         self.nhelp = self.nloop = 0
+        self.tmp_elem, self.elem_locals = 0, {}
         k0 = "pure ()" if ret == "Unit" else "failure"
         if self.trace_calls and ret == "Unit":
             k0 = f"(do call \"ret {name}\"; pure ())"
@@ -467,6 +507,15 @@ def hooks_spec(rel: str, cls: str, comp: str) -> dict:
                        ("thread/thread_control.py", "ThreadEventMixin")],
                 collaborators={comp, "_thread_status"})
 
+
+TRAINING_TICK_SPEC = dict(
+    rel="thread/threads/training.py", cls="TrainingThread",
+    bases=[("thread/threads/base.py", "BackgroundThread"), ("thread/threads/base.py", "Thread"),
+           ("thread/thread_control.py", "ThreadEventMixin")],
+    modules={"time"}, skip={"_logger"},
+    len_fields={"_trainers": "nTrainers"}, nat_state={"_current_trainer_index": "cursor"},
+    indexed={"_trainers_items": "trainers_items"},
+)
 
 STATS_SPEC = dict(
     rel="thread/threads/inference.py", cls="InferenceThread",
